@@ -121,6 +121,17 @@ func concInt(v value, signed bool) int64 {
 	return int64(c)
 }
 
+// concSize concretises an allocation size: all negative values form one class (the allocation panics
+// whatever the value), so a symbolic size forks on its sign first and only the non-negative values are
+// enumerated.
+func concSize(v value, msg string) int64 {
+	t := v.(*Term)
+	if !t.IsConst() && E.branch(Slt(t, ConstBV(t.S.W, 0))) {
+		goPanic(msg)
+	}
+	return concInt(v, true)
+}
+
 func visitInstr(fr *frame, instr ssa.Instruction) continuation {
 	switch instr := instr.(type) {
 	case *ssa.DebugRef:
@@ -229,7 +240,7 @@ func visitInstr(fr *frame, instr ssa.Instruction) continuation {
 		E.preemptPoint(fr.g, "statement after go")
 
 	case *ssa.MakeChan:
-		n := concInt(fr.get(instr.Size), true)
+		n := concSize(fr.get(instr.Size), "makechan: size out of range")
 		if n < 0 {
 			goPanic("makechan: size out of range")
 		}
@@ -246,8 +257,8 @@ func visitInstr(fr *frame, instr ssa.Instruction) continuation {
 		*addr = zero(deref(instr.Type()))
 
 	case *ssa.MakeSlice:
-		c := concInt(fr.get(instr.Cap), true)
-		l := concInt(fr.get(instr.Len), true)
+		c := concSize(fr.get(instr.Cap), "runtime error: makeslice: cap out of range")
+		l := concSize(fr.get(instr.Len), "runtime error: makeslice: len out of range")
 		if l < 0 || c < l || c > 1<<28 {
 			goPanic("runtime error: makeslice: len/cap out of range")
 		}
